@@ -209,6 +209,28 @@ def _events(P, fn):
                             ev.setdefault(lp["header"], []).append("rebuild")
                         else:
                             ev.setdefault(c.bb, []).append("idx:insert?")
+            elif op == "extend" and len(c.args) > 1:
+                # rebuild written as index.extend(rules.iter().enumerate().map(|(pos, rule)| (rule.name.clone(), pos)))
+                src = fn.sym_operand(c.args[1])
+                stxt = fmt_sym(src, maxdepth=14)
+                pair_ok = False
+                for x in walk(src):
+                    if x[0] == "agg" and str(x[1]).startswith("closure:"):
+                        cf = fn.prog.fns.get(x[1][len("closure:"):])
+                        if cf:
+                            rs = A.returned_syms(cf)
+                            if len(rs) == 1:
+                                r0 = strip(rs[0][1])
+                                if r0[0] == "agg" and r0[1] == "tuple" and len(r0[2]) == 2:
+                                    k, v = fmt_sym(r0[2][0], maxdepth=8), fmt_sym(r0[2][1], maxdepth=8)
+                                    if k.endswith(".name") and (v.endswith(".0") or "pos" in v or "idx" in v or "index" in v):
+                                        pair_ok = True
+                if "enumerate" in stxt and "self.rules" in stxt and "::map" in stxt and pair_ok and not A.truncating_adapters(src):
+                    rebuild_ok = True
+                    detail = "index.extend(%s)" % stxt[-70:]
+                    ev.setdefault(c.bb, []).append("rebuild")
+                else:
+                    ev.setdefault(c.bb, []).append("idx:extend")
             else:
                 ev.setdefault(c.bb, []).append("idx:" + op)
     # stores through guards
